@@ -2,62 +2,172 @@ From Coq Require Import List Arith Bool Lia.
 Import ListNotations.
 From I2N Require Import Model.Bridge.
 
-Lemma bridge_refs_other s a b n : n <> a -> refs (bridge s a b) n = refs s n.
+Lemma memn_In x l : memn x l = true <-> In x l.
 Proof.
-  intros H. unfold bridge. destruct (Nat.eqb a b); [reflexivity|]. destruct (memn b (links s a)); [reflexivity|].
-  cbn. destruct (Nat.eqb n a) eqn:E; [apply Nat.eqb_eq in E; contradiction | reflexivity].
+  unfold memn. rewrite existsb_exists. split.
+  - intros [y [Hy E]]. apply Nat.eqb_eq in E. now subst.
+  - intros H. exists x. split; [exact H | apply Nat.eqb_refl].
 Qed.
 
-Lemma join_refs_other s n cls m : m <> n -> refs (join s n cls) m = refs s m.
+(* one bridging step of an already bridged node n with b: n keeps its registers, b gets them, everybody
+   holding r before still holds r, and the nodes linked to n all hold r *)
+Lemma bridge_step s n b r :
+  n <> b -> links s n <> [] -> refs s n = r -> (forall x, In x (links s n) -> refs s x = r) ->
+  let s' := bridge s n b in
+  refs s' n = r /\ refs s' b = r /\ links s' n <> [] /\
+  (forall x, In x (links s' n) -> refs s' x = r) /\ (forall m, refs s m = r -> refs s' m = r).
 Proof.
-  unfold join. revert s. induction cls as [|c r IH]; intros s H; cbn; [reflexivity|].
-  rewrite IH by exact H. now apply bridge_refs_other.
+  intros Hnb Hl Hr Hlinks. cbn zeta. unfold bridge.
+  assert (E : Nat.eqb n b = false) by now apply Nat.eqb_neq. rewrite E.
+  destruct (memn b (links s n)) eqn:Em.
+  - apply memn_In in Em. repeat split; auto.
+  - destruct (links s n) as [|l0 lr] eqn:El; [contradiction|]. cbn [refs links].
+    assert (Hkeep : forall m, refs s m = r -> (if Nat.eqb m b || memn m (links s b) then refs s n else refs s m) = r).
+    { intros m Hm. destruct (Nat.eqb m b || memn m (links s b)); congruence. }
+    assert (Hb : (if Nat.eqb b b || memn b (links s b) then refs s n else refs s b) = r).
+    { rewrite Nat.eqb_refl. cbn. exact Hr. }
+    split; [now apply Hkeep|]. split; [exact Hb|]. rewrite Nat.eqb_refl. split.
+    + destruct lr; discriminate.
+    + split; [|exact Hkeep]. intros x Hx. apply in_app_or in Hx. destruct Hx as [Hx|[<-|[]]].
+      * apply Hkeep. apply Hlinks. exact Hx.
+      * exact Hb.
 Qed.
 
-Lemma bridge_links_new s a b : a <> b -> memn b (links s a) = false ->
-  refs (bridge s a b) a = refs s b /\ memn b (links (bridge s a b) a) = true.
+(* C09: a freshly parsed node bridged with every node of its form - whatever those nodes shared or
+   did not share before - ends with the whole class on one set of registers *)
+Theorem join_unifies s n a rest :
+  links s n = [] -> ~ In n (a :: rest) ->
+  let s' := join s n (a :: rest) in
+  refs s' n = refs s a /\ forall m, In m (a :: rest) -> refs s' m = refs s a.
 Proof.
-  intros Hne Hm. unfold bridge. assert (E : Nat.eqb a b = false) by now apply Nat.eqb_neq. rewrite E, Hm. cbn.
-  rewrite Nat.eqb_refl. split; [reflexivity|]. unfold memn. rewrite existsb_app. cbn. now rewrite Nat.eqb_refl, orb_true_r.
-Qed.
-
-Lemma bridge_links_other s a b x : x <> b -> memn x (links (bridge s a b) a) = memn x (links s a).
-Proof.
-  intros Hx. unfold bridge. destruct (Nat.eqb a b); [reflexivity|]. destruct (memn b (links s a)); [reflexivity|].
-  cbn. rewrite Nat.eqb_refl. unfold memn. rewrite existsb_app. cbn.
-  assert (E : Nat.eqb x b = false) by now apply Nat.eqb_neq. rewrite E. now rewrite orb_false_r.
-Qed.
-
-(* C09: when a new node joins a class whose members all point to the same registers, it ends up
-   pointing to them too, and the members are unaffected: the whole class shares its visit counters *)
-Theorem join_shares s n cls r :
-  ~ In n cls -> NoDup cls -> cls <> [] ->
-  (forall m, In m cls -> refs s m = r) -> (forall m, In m cls -> memn m (links s n) = false) ->
-  refs (join s n cls) n = r /\ forall m, In m cls -> refs (join s n cls) m = r.
-Proof.
-  intros Hn Hnd Hne Hr Hl. split.
-  - unfold join. revert s Hr Hl. induction cls as [|c rest IH]; intros s Hr Hl; [contradiction|]. cbn.
-    assert (Hcn : n <> c) by (intros ->; apply Hn; now left).
-    destruct (bridge_links_new s n c Hcn (Hl c (or_introl eq_refl))) as [H1 H2].
-    destruct rest as [|c2 rest2].
-    + cbn. rewrite H1. apply Hr. now left.
-    + apply IH.
-      * intros H. apply Hn. now right.
-      * now inversion Hnd.
-      * discriminate.
-      * intros m Hm. rewrite bridge_refs_other; [apply Hr; now right|]. intros ->. apply Hn. now right.
-      * intros m Hm. rewrite bridge_links_other; [apply Hl; now right|]. inversion Hnd as [|? ? Hni _]; subst.
-        intros ->. contradiction.
-  - intros m Hm. rewrite join_refs_other; [now apply Hr|]. intros ->. contradiction.
+  intros Hfresh Hn. cbn zeta. unfold join. cbn [fold_left].
+  assert (Hna : n <> a) by (intros ->; apply Hn; now left).
+  set (r := refs s a). set (s1 := bridge s n a).
+  assert (H1 : refs s1 n = r /\ refs s1 a = r /\ links s1 n <> [] /\ (forall x, In x (links s1 n) -> refs s1 x = r)).
+  { unfold s1, bridge. assert (E : Nat.eqb n a = false) by now apply Nat.eqb_neq. rewrite E, Hfresh. cbn [memn existsb refs links].
+    rewrite Nat.eqb_refl. assert (E2 : Nat.eqb a n = false) by (apply Nat.eqb_neq; congruence). rewrite E2.
+    repeat split; auto; [discriminate|]. intros x [<-|[]]. now rewrite E2. }
+  destruct H1 as [Hrn [Hra [Hl Hlinks]]].
+  assert (Hgen : forall l st, ~ In n l -> refs st n = r -> links st n <> [] -> (forall x, In x (links st n) -> refs st x = r) ->
+            let st' := fold_left (fun st m => bridge st n m) l st in
+            refs st' n = r /\ (forall m, In m l -> refs st' m = r) /\ (forall m, refs st m = r -> refs st' m = r)).
+  { induction l as [|b l IH]; intros st Hnl Hr Hne Hls; cbn [fold_left].
+    - repeat split; auto. intros m [].
+    - assert (Hnb : n <> b) by (intros ->; apply Hnl; now left).
+      destruct (bridge_step st n b r Hnb Hne Hr Hls) as [B1 [B2 [B3 [B4 B5]]]].
+      destruct (IH (bridge st n b) (fun H => Hnl (or_intror H)) B1 B3 B4) as [I1 [I2 I3]].
+      split; [exact I1|]. split.
+      + intros m [<-|Hm]; [now apply I3 | now apply I2].
+      + intros m Hm. now apply I3, B5. }
+  destruct (Hgen rest s1 (fun H => Hn (or_intror H)) Hrn Hl Hlinks) as [G1 [G2 G3]].
+  split; [exact G1|]. intros m [<-|Hm]; [now apply G3 | now apply G2].
 Qed.
 
 (* the all-pairs loop of the update tool unifies a class too (instance with four nodes) *)
 Example all_pairs_4 : let s := all_pairs binit [1; 2; 3; 4] in
-  (refs s 1, refs s 2, refs s 3, refs s 4) = (4, 4, 4, 4).
-Proof. vm_compute. reflexivity. Qed.
+  refs s 1 = refs s 2 /\ refs s 2 = refs s 3 /\ refs s 3 = refs s 4.
+Proof. vm_compute. auto. Qed.
 
-(* ... but an arbitrary order of bridge calls does NOT: this is why only the two patterns the code
-   uses are claimed *)
-Example bridge_order_matters :
-  let s := bridge (bridge (bridge binit 1 2) 3 4) 1 3 in refs s 1 <> refs s 2.
-Proof. vm_compute. discriminate. Qed.
+(* the behaviour that was repaired: a second equivalent test of the same worker that is already in the
+   graph but not bridged yet (6) pulls the joining node (3) away from the class {1, 2} *)
+Example old_bridging_separates :
+  let s0 := bridge_old binit 1 2 in                       (* worker 1: the two equivalent tests are bridged *)
+  let s1 := fold_left (fun st m => bridge_old st 3 m) [1; 2; 6] s0 in
+  let s2 := fold_left (fun st m => bridge_old st 6 m) [1; 2; 3] s1 in
+  refs s2 3 <> refs s2 1 /\ In 1 (links s2 3).
+Proof. vm_compute. split; [discriminate | auto]. Qed.
+
+Example new_bridging_unifies :
+  let s0 := bridge binit 1 2 in
+  let s1 := join s0 3 [1; 2; 6] in
+  let s2 := join s1 6 [1; 2; 3] in
+  refs s2 3 = refs s2 1 /\ refs s2 6 = refs s2 1 /\ refs s2 2 = refs s2 1.
+Proof. vm_compute. auto. Qed.
+
+(* ---- the all-pairs loop of the update tool, for every class and every earlier bridging state in which the
+        first node agrees with the nodes it is linked to ---- *)
+Definition row (s : bstate) (a : nat) (l : list nat) : bstate := fold_left (fun st b => bridge st a b) l s.
+
+Lemma bridge_uniform (S : list nat) r s a b :
+  In a S -> In b S -> (forall n, In n S -> refs s n = r) -> forall n, In n S -> refs (bridge s a b) n = r.
+Proof.
+  intros Ha Hb Hu n Hn. unfold bridge.
+  destruct (Nat.eqb a b); [now apply Hu|]. destruct (memn b (links s a)); [now apply Hu|].
+  destruct (links s a); cbn [refs].
+  - destruct (Nat.eqb n a); [now apply Hu | now apply Hu].
+  - destruct (Nat.eqb n b || memn n (links s b)); now apply Hu.
+Qed.
+
+Lemma row_uniform (S : list nat) r a l : In a S -> (forall b, In b l -> In b S) ->
+  forall s, (forall n, In n S -> refs s n = r) -> forall n, In n S -> refs (row s a l) n = r.
+Proof.
+  intros Ha. unfold row. induction l as [|b l IH]; intros Hl s Hu; cbn [fold_left]; [exact Hu|].
+  apply IH; [intros x Hx; apply Hl; now right|]. apply bridge_uniform; auto. apply Hl. now left.
+Qed.
+
+Lemma rows_uniform (S : list nat) r l rows : (forall b, In b l -> In b S) -> (forall a, In a rows -> In a S) ->
+  forall s, (forall n, In n S -> refs s n = r) ->
+  forall n, In n S -> refs (fold_left (fun st a => fold_left (fun st' b => bridge st' a b) l st) rows s) n = r.
+Proof.
+  intros Hl. induction rows as [|a rows IH]; intros Hr s Hu; cbn [fold_left]; [exact Hu|].
+  apply IH; [intros x Hx; apply Hr; now right|].
+  apply (row_uniform S r a l); auto. apply Hr. now left.
+Qed.
+
+Definition rowinv (a : nat) (st : bstate) (P : list nat) : Prop :=
+  (forall x, In x (links st a) -> refs st x = refs st a) /\
+  (forall m, In m P -> refs st m = refs st a) /\
+  (links st a = [] -> forall m, In m P -> m = a).
+
+Lemma first_row a l : forall st P, rowinv a st P -> rowinv a (row st a l) (P ++ l).
+Proof.
+  unfold row. induction l as [|b l IH]; intros st P HJ; cbn [fold_left].
+  - now rewrite app_nil_r.
+  - replace (P ++ b :: l) with ((P ++ [b]) ++ l) by now rewrite <- app_assoc.
+    apply IH. destruct HJ as [J1 [J2 J3]]. unfold rowinv.
+    destruct (Nat.eq_dec a b) as [<-|Hab].
+    + assert (E : bridge st a a = st) by (unfold bridge; now rewrite Nat.eqb_refl). rewrite E.
+      split; [exact J1|]. split.
+      * intros m Hm. apply in_app_or in Hm. destruct Hm as [Hm|[<-|[]]]; auto.
+      * intros Hl m Hm. apply in_app_or in Hm. destruct Hm as [Hm|[<-|[]]]; auto.
+    + destruct (memn b (links st a)) eqn:Em.
+      * assert (E : bridge st a b = st).
+        { unfold bridge. assert (E0 : Nat.eqb a b = false) by now apply Nat.eqb_neq. now rewrite E0, Em. }
+        rewrite E. apply memn_In in Em. split; [exact J1|]. split.
+        -- intros m Hm. apply in_app_or in Hm. destruct Hm as [Hm|[<-|[]]]; auto.
+        -- intros Hl. rewrite Hl in Em. destruct Em.
+      * destruct (links st a) as [|l0 lr] eqn:El.
+        -- (* a is not bridged yet: it adopts b's registers *)
+           unfold bridge. assert (E0 : Nat.eqb a b = false) by now apply Nat.eqb_neq. rewrite E0, El. cbn [memn existsb].
+           cbn [refs links]. rewrite Nat.eqb_refl.
+           assert (E1 : Nat.eqb b a = false) by (apply Nat.eqb_neq; congruence).
+           split; [|split].
+           ++ intros x [<-|[]]. now rewrite E1.
+           ++ intros m Hm. apply in_app_or in Hm. destruct Hm as [Hm|[<-|[]]].
+              ** rewrite (J3 eq_refl m Hm). now rewrite Nat.eqb_refl.
+              ** now rewrite E1.
+           ++ intros Hc. discriminate Hc.
+        -- (* a is bridged: it keeps its registers and b's side adopts them *)
+           assert (Hne : links st a <> []) by (rewrite El; discriminate).
+           assert (Hls : forall x, In x (links st a) -> refs st x = refs st a) by (rewrite El; exact J1).
+           destruct (bridge_step st a b (refs st a) Hab Hne eq_refl Hls) as [B1 [B2 [B3 [B4 B5]]]].
+           split; [|split].
+           ++ intros x Hx. rewrite B1. now apply B4.
+           ++ intros m Hm. rewrite B1. apply in_app_or in Hm. destruct Hm as [Hm|[<-|[]]]; [|exact B2].
+              apply B5. now apply J2.
+           ++ intros Hc. contradiction.
+Qed.
+
+Theorem all_pairs_unifies s a rest :
+  (forall y, In y (links s a) -> refs s y = refs s a) ->
+  let s' := all_pairs s (a :: rest) in forall m, In m (a :: rest) -> refs s' m = refs s' a.
+Proof.
+  intros Hs. cbn zeta. set (l := a :: rest). set (s1 := fold_left (fun st' b => bridge st' a b) l s).
+  change (all_pairs s l) with (fold_left (fun st a0 => fold_left (fun st' b => bridge st' a0 b) l st) rest s1).
+  assert (H1 : rowinv a s1 ([] ++ l)).
+  { apply (first_row a l s []). split; [exact Hs|]. split; [intros m []|intros _ m []]. }
+  destruct H1 as [_ [H1 _]]. cbn [app] in H1.
+  assert (Hu : forall n, In n l -> refs (fold_left (fun st a0 => fold_left (fun st' b => bridge st' a0 b) l st) rest s1) n = refs s1 a).
+  { apply (rows_uniform l (refs s1 a) l rest); auto. intros x Hx. now right. }
+  intros m Hm. rewrite (Hu m Hm). symmetry. apply Hu. now left.
+Qed.
